@@ -541,3 +541,85 @@ Theorem dead_acceptor_position_held_until_sweep :
   d_chan s4 = [33] /\                                              (* now it gets in *)
   e5 = [EvAccepted 33 {| k_addr := 5; k_conn := 51 |}].            (* and is served *)
 Proof. vm_compute. repeat split. Qed.
+
+(* ------------------------------------------------------------------ slots never leak *)
+(* every step, every address: the number of pending connects grows only by a connect request
+   that was granted a slot (and then by exactly one) *)
+Theorem pending_grows_only_by_connect s o s' e a :
+  d_inv s -> dstep s o = (s', e) ->
+  (length (pending s' a) <= length (pending s a))%nat \/
+  (no_connect_err e /\ length (pending s' a) = S (length (pending s a)) /\
+   exists cid q, In (EvSentSyn a cid q) e).
+Proof.
+  intros Hinv H.
+  assert (Hsame : forall s0, d_connecting s0 = d_connecting s -> d_connecting s' = d_connecting s0 ->
+            (length (pending s' a) <= length (pending s a))%nat).
+  { intros s0 H0 H1. rewrite (pending_same_connecting s s' a) by congruence. lia. }
+  destruct o as [pushes ar|id|id|id|addr token|addr token|addr token|k1];
+    [|left; apply (Hsame s eq_refl); cbn [dstep] in H..].
+  - destruct (run_once_decomp _ _ _ _ _ Hinv H) as (s1 & e1 & e3 & Ec & Ea & -> & Hinv1 & Hacc & Hfr & Hinv2 & Hsm).
+    destruct Hfr as [_ B2 _ _ _]. destruct Hsm as (_ & P2 & _).
+    set (s2 := fold_left push_acceptor pushes s1) in *.
+    assert (Hc2 : d_connecting s2 = d_connecting s) by congruence.
+    unfold arm_step in Ea. destruct ar as [|send|addr [m|]].
+    + left. apply (Hsame s2 Hc2). destruct (d_next_acc s2); [injection Ea as <- _; reflexivity|].
+      destruct (d_chan s2); injection Ea as <- _; reflexivity.
+    + destruct (d_control s2) as [|c r] eqn:Ectl; [left; apply (Hsame s2 Hc2); injection Ea as <- _; reflexivity|].
+      assert (Hinv2' : d_inv (upd_control s2 r)) by (apply (d_inv_same_tables s2); dsimpl; auto; apply Hinv2).
+      assert (Hp2 : forall b, pending (upd_control s2 r) b = pending s b)
+        by (intro b; apply pending_same_connecting; exact Hc2).
+      destruct c as [a0 t0|a0 t0|k0].
+      * pose proof (on_control_connect_spec _ _ _ _ _ _ Hinv2' Ea) as Hspec. cbv zeta in Hspec.
+        destruct Hspec as (_ & Hspec).
+        destruct (streams_full (upd_control s2 r)).
+        { left. destruct Hspec as (_ & _ & C & _). apply (Hsame (upd_control s2 r) Hc2 C). }
+        destruct send; [|left; destruct Hspec as (_ & _ & C & _); apply (Hsame (upd_control s2 r) Hc2 C)..].
+        destruct Hspec as (Hoth & Hspec).
+        destruct (Z.eq_dec a a0) as [->|Hne].
+        2:{ left. unfold pending at 1. rewrite (Hoth a Hne). fold (pending (upd_control s2 r) a). rewrite Hp2. lia. }
+        rewrite Hp2 in Hspec. destruct (Nat.ltb_spec (length (pending s a0)) 4) as [Hlt|Hge].
+        -- right. destruct Hspec as (-> & _ & _ & l1 & l2 & E1 & E2 & _).
+           split.
+           { intros t Ht. apply in_app_or in Ht. destruct Ht as [Ht|[Ht|[]]]; [|discriminate].
+             exact (all_accepted_no_err _ Hacc _ Ht). }
+           split.
+           { unfold pending at 1. rewrite E2. rewrite <- (Hp2 a0). unfold pending. rewrite E1.
+             rewrite !somes_app, !app_length. cbn [somes flat_map app length]. lia. }
+           eexists _, _. apply in_or_app. right. left. reflexivity.
+        -- left. destruct Hspec as (_ & _ & _ & E). unfold pending at 1. rewrite E.
+           fold (pending (upd_control s2 r) a0). rewrite Hp2. lia.
+      * left. destruct (on_control_dropped_spec _ _ _ _ _ _ Hinv2' Ea) as (_ & _ & _ & _ & _ & Hoth & Hpop).
+        destruct (Z.eq_dec a a0) as [->|Hne].
+        2:{ unfold pending at 1. rewrite (Hoth a Hne). fold (pending (upd_control s2 r) a). rewrite Hp2. lia. }
+        destruct (slots_pop _ (slots_of (upd_control s2 r) a0)) as [[c sl']|] eqn:Ep.
+        -- destruct (slots_pop_somes _ _ _ _ Ep) as (m1 & m2 & Q1 & Q2 & _ & _ & Q5).
+           unfold pending at 1. rewrite Hpop. rewrite <- (Hp2 a0). unfold pending. lia.
+        -- subst s'. rewrite Hp2. lia.
+      * left. apply (Hsame (upd_control s2 r) Hc2). cbn [on_control] in Ea.
+        destruct (find_stream _ k0) as [en|]; [destruct (se_alive en)|]; injection Ea as <- _; reflexivity.
+    + left. unfold on_recv in Ea. destruct (find_stream s2 _) as [en|] eqn:Ef.
+      { apply (Hsame s2 Hc2). destruct (se_alive en); injection Ea as <- _; reflexivity. }
+      destruct (dm_type m); try (apply (Hsame s2 Hc2); injection Ea as <- _; reflexivity).
+      * pose proof (on_maybe_connect_ack_slots _ _ _ _ _ Hinv2 Ef Ea) as Hsl. cbv zeta in Hsl.
+        assert (Hp2 : forall b, pending s2 b = pending s b) by (intro b; apply pending_same_connecting; exact Hc2).
+        destruct (streams_full s2); [destruct Hsl as [-> _]; rewrite Hp2; lia|].
+        destruct (slots_pop _ (slots_of s2 addr)) as [[c sl']|] eqn:Ep; [|destruct Hsl as [-> _]; rewrite Hp2; lia].
+        destruct Hsl as (S1 & Hoth & _).
+        destruct (Z.eq_dec a addr) as [->|Hne].
+        2:{ unfold pending at 1. rewrite (Hoth a Hne). fold (pending s2 a). rewrite Hp2. lia. }
+        destruct (slots_pop_somes _ _ _ _ Ep) as (m1 & m2 & Q1 & Q2 & _ & _ & Q5).
+        unfold pending at 1. rewrite S1. rewrite <- (Hp2 addr). unfold pending. lia.
+      * apply (Hsame s2 Hc2). apply (on_syn_keeps _ _ _ _ Ea).
+    + left. apply (Hsame s2 Hc2). injection Ea as <- _. reflexivity.
+  - injection H as <- _. unfold push_acceptor. destruct (_ <? _); reflexivity.
+  - destruct (find _ _) as [[x [k sid]]|]; injection H as <- _; reflexivity.
+  - injection H as <- _. reflexivity.
+  - injection H as <- _. reflexivity.
+  - injection H as <- _. reflexivity.
+  - injection H as <- _. destruct (existsb _ _); reflexivity.
+  - injection H as <- _. reflexivity.
+Qed.
+
+(* ------------------------------------------------------------------ every reachable state *)
+Lemma reachable_inv max_streams random ops : d_inv (drun (dstate_new max_streams random) ops).
+Proof. apply drun_inv. apply new_inv. Qed.
